@@ -262,7 +262,7 @@ class RigidCorr(Corr):
     name = "rigid"
     header = HEADER
     requires = REQUIRES
-    shard = 60
+    shard = 40
 
     def cases(self, tier, rng):
         out = load_corpus(self.name)
@@ -402,21 +402,21 @@ class RigidCorr(Corr):
         parts = [c_rigid_close(n, o) for n, o in zip(names, obs["Ts"])]
         # the prefix compositions observed before the end / before the error
         for i, so in enumerate(obs["steps"]):
-            parts.append(f'dot_check (chain_from T0 {llit(names[1:i + 2])}) (fun C => {c_rigid_close("C", so)})')
+            parts.append(f'dot_check (chain_from_n T0 {llit(names[1:i + 2])}) (fun C => {c_rigid_close("C", so)})')
         if "error" in obs:
             k = obs["error_at"]
-            parts.append(f"dot_is_error (chain_from T0 {llit(names[1:k + 1])})")
-            parts.append(f"dot_is_error (chain_from T0 {rest})")
+            parts.append(f"dot_is_error (chain_from_n T0 {llit(names[1:k + 1])})")
+            parts.append(f"dot_is_error (chain_from_n T0 {rest})")
         else:
             p, r = c_vec(case["p"]), c_quat_exact(case["r"])
-            parts.append(f'dot_check (chain_from T0 {rest}) (fun C => {c_rigid_close("C", obs["C"])} '
+            parts.append(f'dot_check (chain_from_n T0 {rest}) (fun C => {c_rigid_close("C", obs["C"])} '
                          f'&& vec_close tol9 (fst (apply_pose C ({p}, {r}))) {c_ql(obs["C_p"])} '
                          f'&& quat_close_pm tol9 (snd (apply_pose C ({p}, {r}))) {c_ql(obs["C_r"])} '
                          f'&& vec_close tol9 (apply_point C {p}) {c_ql(obs["C_point"])})')
             for i, (sp, sr) in enumerate(obs["stepwise"]):
                 pre = llit(names[:i + 1])
-                parts.append(f"vec_close tol9 (fst (apply_chain_pose {pre} ({p}, {r}))) {c_ql(sp)}")
-                parts.append(f"quat_close_pm tol9 (snd (apply_chain_pose {pre} ({p}, {r}))) {c_ql(sr)}")
+                parts.append(f"vec_close tol9 (fst (apply_chain_pose_n {pre} ({p}, {r}))) {c_ql(sp)}")
+                parts.append(f"quat_close_pm tol9 (snd (apply_chain_pose_n {pre} ({p}, {r}))) {c_ql(sr)}")
         return with_rigids(specs, "(" + " && ".join(parts) + ")", names)
 
     def coq_debug(self, case, obs):
@@ -425,7 +425,7 @@ class RigidCorr(Corr):
             return f'(match {c_mk_rigid(case["T"])} with Some T0 => Some (to_matrix T0, apply_pose T0 ({p}, {r}), inv T0) | None => None end)'
         if case["kind"] == "chain":
             names = [f"T{i}" for i in range(len(case["chain"]))]
-            body = f"Some (chain_from T0 {llit(names[1:])})"
+            body = f"Some (chain_from_n T0 {llit(names[1:])})"
             out = body
             for name, spec in reversed(list(zip(names, case["chain"]))):
                 out = f"(match {c_mk_rigid(spec)} with Some {name} => {out} | None => None end)"
@@ -791,5 +791,5 @@ class C18(Prop):
         return [RigidCorr(), RegistryCorr()]
 
 
-READY = False
+READY = True
 PROP = C18()
